@@ -260,6 +260,8 @@ union interp_cast {
 static uint64_t Float_Hash(var self) {
   union interp_cast ic;
   ic.as_flt = c_float(self);
+  /* -0.0 equals 0.0, so both must hash alike */
+  if (ic.as_flt == 0.0) { ic.as_flt = 0.0; }
   return ic.as_int;
 }
 
